@@ -289,6 +289,14 @@ def check(an: Analysis) -> None:
         if not (is_name(kws.get(troles["limit"]), "limit") and is_name(kws.get(troles["delay"]), "delay") and c.args and is_name(c.args[0], "function")):
             ob4.fail(wrap, c, "limit / delay / function are not passed on unchanged")
 
+    # ------------------------------------------------------------------ C14.8 the log call between two attempts cannot raise
+    # (between the caught failure and the next attempt the wrappers call ctx.log_error with the exception as a lazy argument:
+    # an exception escaping from it - e.g. eager formatting of an exception whose __str__ fails - leaves the retry loop)
+    from ..engine import borrow
+    from . import c10
+
+    borrow(an, c10.check, {"C10.1": "C14.8"}, keep=lambda f: "log_error" in f.at or "ScopeMetrics.log" in f.at)
+
 
 def _counter_budget(an: Analysis, ob1, f: FunctionInfo, g: CFG, d: Deps, loop: ast.AST, head: Node, call: Node, tr: ast.Try, LIMIT: str = "limit"):
     """Form A: `while True` with an attempt counter compared with `limit`.  Returns (guard, incs, pol, ctr, hentries) or None."""
